@@ -972,7 +972,7 @@ Lemma col_encodable name dt f ns : valid_prop_dtype dt = true -> dtype_eqb dt DF
   encodable (name, col dt f ns) /\ wf_prop (length ns) (col dt f ns).
 Proof.
   intros Hv Hf Hn. split.
-  - unfold encodable, col. cbn [fst snd]. unfold create_props_metadata, encode_prop, upcast_prop, upcast_arr. cbn [p_vals p_missing a_dt].
+  - unfold encodable, col. cbn [fst snd]. unfold create_props_metadata, vlen_dtypes_uniform, cpm_core, encode_prop, upcast_prop, upcast_arr. cbn [p_vals p_missing a_dt].
     rewrite Hf. cbn [p_vals a_dt]. rewrite Hv. destruct (String.eqb name "") eqn:E; [apply String.eqb_eq in E; contradiction|].
     cbn. eexists. eexists. split; reflexivity.
   - split; cbn; [exists []; reflexivity | exact I].
